@@ -4,6 +4,7 @@
    Proof style: the world is destructed to a flat record, every primitive is consumed by a one-step lemma whose
    continuation is abstract (the kernel never evaluates the rest of the program under an undecided condition),
    side conditions are closed by computation on the world term alone. *)
+From Coq Require Import Lia ZifyNat ZifyN.
 From LibFtp Require Import Bytes Decimal Reply Endpoint Ascii DataConn DataConn_Proofs Client Client_Proofs Login_Proofs.
 Local Open Scope N_scope.
 
@@ -24,6 +25,56 @@ Proof.
   destruct r1; try (destruct (_ && _)); intro H; inversion H; reflexivity.
 Qed.
 
+
+Lemma recv_loop_done_nocb t : forall segs p s ev r p' s' cb', good_sink s ->
+  recv_loop t p s segs DEof None = (ev, r, p', s', cb') -> r = PDone.
+Proof.
+  induction segs as [|seg rest IH]; intros p s ev r p' s' cb' G R.
+  - cbn in R. inversion R. reflexivity.
+  - cbn [recv_loop] in R. destruct (sink_write t p seg) as [o q]. rewrite (sink_fails_good s G) in R.
+    destruct (recv_loop t q (sink_next s) rest DEof None) as [[[[e2 r2] p2] s2] c2] eqn:R2.
+    inversion R; subst. eapply IH; [apply good_sink_next; exact G|exact R2].
+Qed.
+
+Theorem download_completes_any_type t s segs ev r cb' : good_sink s ->
+  data_recv t s segs DEof None = (ev, r, cb') -> r = PDone.
+Proof.
+  intros G H. unfold data_recv in H. cbn [start_events] in H.
+  destruct (recv_loop t false s segs DEof None) as [[[[ev1 r1] p] s1] cb2] eqn:R.
+  pose proof (recv_loop_done_nocb _ _ _ _ _ _ _ _ _ G R) as ->.
+  assert (G1 : good_sink s1).
+  { destruct t.
+    - destruct (recv_loop_binary _ _ _ _ _ _ _ _ _ G R) as (_ & _ & _ & _ & _ & X). first [exact X | idtac].
+    - destruct (recv_loop_ascii _ _ _ _ _ _ _ _ _ _ G R) as (_ & _ & X & _). exact X. }
+  rewrite (sink_fails_good s1 G1), andb_false_r in H. inversion H. reflexivity.
+Qed.
+
+(* what the sink must hold after a completed download, by transfer type *)
+Definition delivered (t : ttype) (payload : bytes) : bytes :=
+  match t with TBinary => payload | TAscii => from_crlf payload end.
+
+Lemma download_sink_any_type t s segs ev cb' : good_sink s ->
+  data_recv t s segs DEof None = (ev, PDone, cb') -> sink_bytes ev = delivered t (concat segs).
+Proof.
+  intros G H. destruct t; cbn [delivered].
+  - destruct (download_exact _ _ _ _ _ _ _ G H eq_refl) as (_ & SB & _). exact SB.
+  - exact (download_ascii_exact _ _ _ _ _ _ _ G H eq_refl).
+Qed.
+
+(* what goes out on the data connection for a completed upload, by transfer type *)
+Definition sent (t : ttype) (chunks : list bytes) : bytes :=
+  match t with TBinary => concat (upto_empty chunks) | TAscii => to_crlf (concat chunks) end.
+
+Lemma block_size_pos : (1 <= block_size)%nat.
+Proof. unfold block_size. lia. Qed.
+
+Lemma upload_net_any_type t chunks ev cb' :
+  data_send t block_size chunks None = (ev, PDone, cb') -> net_out_bytes ev = sent t chunks.
+Proof.
+  intro H. destruct t; cbn [sent].
+  - exact (upload_exact _ _ _ _ _ _ H eq_refl).
+  - exact (upload_ascii_exact _ _ _ _ _ _ block_size_pos H eq_refl).
+Qed.
 
 (* ---- one-step lemmas with the continuation abstract (cheap for the kernel: no branch of the rest of the
    program is ever evaluated under an undecided condition) ---- *)
@@ -177,30 +228,30 @@ Ltac open_passive w r1 r2 Hs Hpath N1 Reach :=
    the session is in step again *)
 Theorem download_passive_complete w path r1 r2 rest x1 x2 x3 ip port :
   insync w (r1 :: r2 :: rest) -> w_data w = None ->
-  c_mode (w_cfg w) = Passive -> c_tls (w_cfg w) = false -> c_type (w_cfg w) = TBinary ->
+  c_mode (w_cfg w) = Passive -> c_tls (w_cfg w) = false ->
   has_crlf path = false ->
   simple_reaction r1 x1 -> is_negative x1 = false -> passive_target (w_cfg w) x1 ip port ->
   dp_reachable (r_data r1) = true ->
   accepts_transfer r2 x2 x3 -> dp_end (r_data r2) = DEof ->
   exists w', step w (ADownload path None None) = (OReturn (RvReplies [x1; x2; x3]), w') /\
     insync w' rest /\ w_data w' = None /\ w_cfg w' = w_cfg w /\
-    sink_bytes (io_events (skipn (length (w_trace w)) (w_trace w'))) = concat (dp_segs (r_data r2)) /\
+    sink_bytes (io_events (skipn (length (w_trace w)) (w_trace w'))) = delivered (c_type (w_cfg w)) (concat (dp_segs (r_data r2))) /\
     wire_events (skipn (length (w_trace w)) (w_trace w')) =
       [WLine (setup_line (w_cfg w)); WReply x1; WLine (RETR_ ++ SP :: path); WReply x2; WReply x3] /\
     data_events (skipn (length (w_trace w)) (w_trace w')) =
       [DNewObj; DConnectTo ip port true; DTcpShutdown; DClose].
 Proof.
-  intros ((Ho & Hs & Hpc & Hb) & Hp & Hc) Hd Hm Htls Hty Hpath (R1n & R1c & R1a & R1x) N1 Tgt Reach
+  intros ((Ho & Hs & Hpc & Hb) & Hp & Hc) Hd Hm Htls Hpath (R1n & R1c & R1a & R1x) N1 Tgt Reach
          (R2n & R2c & R2a & N2 & X2 & X3) End.
   destruct w as [cfg f2 f3 f4 f5 f6 f7 f8 f9 f10 f11 f12 f13 f14 f15 f16 f17 f18 f19 f20].
   destruct cfg as [cm crfc cty ctls cres].
-  cbn in Ho, Hs, Hpc, Hb, Hp, Hc, Hd, Hm, Htls, Hty, Tgt. subst.
+  cbn in Ho, Hs, Hpc, Hb, Hp, Hc, Hd, Hm, Htls, Tgt. subst.
   destruct r1 as [n1 oc1 dp1 ca1 tl1 d1]. destruct r2 as [n2 oc2 dp2 ca2 tl2 d2].
   cbn in R1n, R1c, R1a, Reach, R2n, R2c, R2a, End. subst.
-  destruct (data_recv TBinary (mkSink None O) (dp_segs d2) DEof None) as [[ev r] cb'] eqn:DR.
+  destruct (data_recv cty (mkSink None O) (dp_segs d2) DEof None) as [[ev r] cb'] eqn:DR.
   pose proof (data_recv_nocb _ _ _ _ _ _ _ DR) as ->.
-  pose proof (download_completes_without_callback _ _ _ _ _ (eq_refl : good_sink (mkSink None O)) DR) as ->.
-  destruct (download_exact _ _ _ _ _ _ _ (eq_refl : good_sink (mkSink None O)) DR eq_refl) as (_ & SB & _).
+  pose proof (download_completes_any_type _ _ _ _ _ _ (eq_refl : good_sink (mkSink None O)) DR) as ->.
+  pose proof (download_sink_any_type _ _ _ _ _ (eq_refl : good_sink (mkSink None O)) DR) as SB.
   rewrite step_download_unfold. unfold op_download.
   rewrite run_checkarg, Hpath, run_scope.
   unfold create_data_connection. rewrite run_getcfg. flat.
@@ -258,30 +309,30 @@ Ltac trace_facts :=
    the source's, end of file is signalled (the data connection is closed) BEFORE the completion reply is awaited *)
 Theorem upload_passive_complete w u path chunks r1 r2 rest x1 x2 x3 ip port :
   insync w (r1 :: r2 :: rest) -> w_data w = None ->
-  c_mode (w_cfg w) = Passive -> c_tls (w_cfg w) = false -> c_type (w_cfg w) = TBinary ->
+  c_mode (w_cfg w) = Passive -> c_tls (w_cfg w) = false ->
   has_crlf path = false ->
   simple_reaction r1 x1 -> is_negative x1 = false -> passive_target (w_cfg w) x1 ip port ->
   dp_reachable (r_data r1) = true ->
   accepts_transfer r2 x2 x3 ->
   exists w', step w (AUpload u path chunks None) = (OReturn (RvReplies [x1; x2; x3]), w') /\
     insync w' rest /\ w_data w' = None /\ w_cfg w' = w_cfg w /\
-    net_out_bytes (io_events (skipn (length (w_trace w)) (w_trace w'))) = concat (upto_empty chunks) /\
+    net_out_bytes (io_events (skipn (length (w_trace w)) (w_trace w'))) = sent (c_type (w_cfg w)) chunks /\
     wire_events (skipn (length (w_trace w)) (w_trace w')) =
       [WLine (setup_line (w_cfg w)); WReply x1; WLine (upverb_bytes u ++ SP :: path); WReply x2; WReply x3] /\
     data_events (skipn (length (w_trace w)) (w_trace w')) =
       [DNewObj; DConnectTo ip port true; DTcpShutdown; DClose].
 Proof.
-  intros ((Ho & Hs & Hpc & Hb) & Hp & Hc) Hd Hm Htls Hty Hpath (R1n & R1c & R1a & R1x) N1 Tgt Reach
+  intros ((Ho & Hs & Hpc & Hb) & Hp & Hc) Hd Hm Htls Hpath (R1n & R1c & R1a & R1x) N1 Tgt Reach
          (R2n & R2c & R2a & N2 & X2 & X3).
   destruct w as [cfg f2 f3 f4 f5 f6 f7 f8 f9 f10 f11 f12 f13 f14 f15 f16 f17 f18 f19 f20].
   destruct cfg as [cm crfc cty ctls cres].
-  cbn in Ho, Hs, Hpc, Hb, Hp, Hc, Hd, Hm, Htls, Hty, Tgt. subst.
+  cbn in Ho, Hs, Hpc, Hb, Hp, Hc, Hd, Hm, Htls, Tgt. subst.
   destruct r1 as [n1 oc1 dp1 ca1 tl1 d1]. destruct r2 as [n2 oc2 dp2 ca2 tl2 d2].
   cbn in R1n, R1c, R1a, Reach, R2n, R2c, R2a. subst.
-  destruct (data_send TBinary block_size chunks None) as [[ev r] cb'] eqn:DS.
+  destruct (data_send cty block_size chunks None) as [[ev r] cb'] eqn:DS.
   pose proof (data_send_nocb _ _ _ _ _ _ DS) as ->.
   pose proof (upload_completes_without_callback _ _ _ _ _ _ DS) as ->.
-  pose proof (upload_exact _ _ _ _ _ _ DS eq_refl) as NB.
+  pose proof (upload_net_any_type _ _ _ _ DS) as NB.
   rewrite step_upload_unfold. unfold op_upload.
   rewrite run_checkarg, Hpath, run_scope.
   unfold create_data_connection. rewrite run_getcfg. flat.
@@ -383,12 +434,12 @@ Proof. reflexivity. Qed.
    before the completion reply (C14) *)
 Theorem list_passive_complete w path names r1 r2 rest x1 x2 x3 ip port :
   insync w (r1 :: r2 :: rest) -> w_data w = None ->
-  c_mode (w_cfg w) = Passive -> c_tls (w_cfg w) = false -> c_type (w_cfg w) = TBinary ->
+  c_mode (w_cfg w) = Passive -> c_tls (w_cfg w) = false ->
   arg_ok path ->
   simple_reaction r1 x1 -> is_negative x1 = false -> passive_target (w_cfg w) x1 ip port ->
   dp_reachable (r_data r1) = true ->
   accepts_transfer r2 x2 x3 -> dp_end (r_data r2) = DEof ->
-  exists w', step w (AList path names) = (OReturn (RvList [x1; x2; x3] (concat (dp_segs (r_data r2)))), w') /\
+  exists w', step w (AList path names) = (OReturn (RvList [x1; x2; x3] (delivered (c_type (w_cfg w)) (concat (dp_segs (r_data r2))))), w') /\
     insync w' rest /\ w_data w' = None /\ w_cfg w' = w_cfg w /\
     wire_events (skipn (length (w_trace w)) (w_trace w')) =
       [WLine (setup_line (w_cfg w)); WReply x1; WLine (line_of (if names then NLST_ else LIST_) path); WReply x2; WReply x3] /\
@@ -397,18 +448,18 @@ Theorem list_passive_complete w path names r1 r2 rest x1 x2 x3 ip port :
     obs_events (skipn (length (w_trace w)) (w_trace w')) =
       told (w_obs w) (ORequest (setup_line (w_cfg w))) ++ told (w_obs w) (OReply x1) ++
       told (w_obs w) (ORequest (line_of (if names then NLST_ else LIST_) path)) ++ told (w_obs w) (OReply x2) ++
-      told (w_obs w) (OFileList (concat (dp_segs (r_data r2)))) ++ told (w_obs w) (OReply x3).
+      told (w_obs w) (OFileList (delivered (c_type (w_cfg w)) (concat (dp_segs (r_data r2))))) ++ told (w_obs w) (OReply x3).
 Proof.
-  intros ((Ho & Hs & Hpc & Hb) & Hp & Hc) Hd Hm Htls Hty Hpath (R1n & R1c & R1a & R1x) N1 Tgt Reach
+  intros ((Ho & Hs & Hpc & Hb) & Hp & Hc) Hd Hm Htls Hpath (R1n & R1c & R1a & R1x) N1 Tgt Reach
          (R2n & R2c & R2a & N2 & X2 & X3) End.
   destruct w as [cfg f2 f3 f4 f5 f6 f7 f8 f9 f10 f11 f12 f13 f14 f15 f16 f17 f18 f19 f20].
   destruct cfg as [cm crfc cty ctls cres].
-  cbn in Ho, Hs, Hpc, Hb, Hp, Hc, Hd, Hm, Htls, Hty, Tgt. subst.
+  cbn in Ho, Hs, Hpc, Hb, Hp, Hc, Hd, Hm, Htls, Tgt. subst.
   destruct r1 as [n1 oc1 dp1 ca1 tl1 d1]. destruct r2 as [n2 oc2 dp2 ca2 tl2 d2].
   cbn in R1n, R1c, R1a, Reach, R2n, R2c, R2a, End. subst.
-  destruct (data_recv TBinary (mkSink None O) (dp_segs d2) DEof None) as [[ev r] cb'] eqn:DR.
-  pose proof (download_completes_without_callback _ _ _ _ _ (eq_refl : good_sink (mkSink None O)) DR) as ->.
-  destruct (download_exact _ _ _ _ _ _ _ (eq_refl : good_sink (mkSink None O)) DR eq_refl) as (_ & SB & _).
+  destruct (data_recv cty (mkSink None O) (dp_segs d2) DEof None) as [[ev r] cb'] eqn:DR.
+  pose proof (download_completes_any_type _ _ _ _ _ _ (eq_refl : good_sink (mkSink None O)) DR) as ->.
+  pose proof (download_sink_any_type _ _ _ _ _ (eq_refl : good_sink (mkSink None O)) DR) as SB.
   rewrite step_list_unfold. unfold op_list.
   assert (Hcheck : has_crlf (match path with Some p => p | None => [] end) = false).
   { destruct path as [p|]; [exact Hpath|reflexivity]. }
